@@ -402,7 +402,10 @@ def _returns(stmts):
     return out
 
 
-def analyse_svg_class(path="/repo/src/picosvg/svg.py"):
+def analyse_svg_class(path=None):
+    import os
+
+    path = path or os.environ.get("PYVC_REPO", "/repo") + "/src/picosvg/svg.py"
     tree = ast.parse(open(path).read(), path)
     cls = next(n for n in tree.body if isinstance(n, ast.ClassDef) and n.name == "SVG")
     an = Analyzer(cls)
